@@ -279,6 +279,7 @@ def run(prog, ctx):
 
     def mirrored(l, r):
         return l[0] == "list" and r[0] == "list" and len(l) == 3 and (l[1], l[2]) == (r[2], r[1])
+    notes = []
     if gathers:
         # re-assignment forms: self._data = (samples[order], labels[order]) with ONE index vector that starts as arange(n) and is only
         # changed by exchanging two of its entries (so it stays a permutation of all positions); or private copies of both arrays that
@@ -296,14 +297,43 @@ def run(prog, ctx):
 
         def descriptor(e, Dk):
             t = tmm.term(e)
-            if t[0] == "s" and t[1] == Dk and t[2][0] == "n":
-                onm = t[2][1]
+            if t[0] == "s" and t[1][0] == "n":
+                # samples = self._data[0] ... samples[order]
+                b_ = tmm.env.bindings.get(t[1][1], [])
+                if len(b_) == 1 and b_[0].kind == "assign" and b_[0].value is not None and tmm.term(b_[0].value) == Dk:
+                    t = ("s", Dk, t[2])
+            if t[0] == "s" and t[1] == Dk and isinstance(e, ast.Subscript) and isinstance(e.slice, ast.Name):
+                onm = e.slice.id
                 bs = tmm.env.bindings.get(onm, [])
                 starts = [b for b in bs if b.kind == "assign" and isinstance(b.value, ast.Call) and isinstance(b.value.func, ast.Attribute)
                           and b.value.func.attr == "arange" and len(b.value.args) == 1]
                 if len(bs) == 1 and len(starts) == 1 and perm_swaps.get(onm) and all(mirrored(l, r) for (l, r) in perm_swaps[onm]) \
                         and not modified_otherwise(onm):
                     return ("gather", onm)
+                # order = concatenate((B, setdiff1d(arange(n), B))) with a duplicate-free B (B = np.unique(...) / built from a set):
+                # B first, every other position once
+                def only_def(nm):
+                    b_ = tmm.env.bindings.get(nm, [])
+                    return b_[0].value if len(b_) == 1 and b_[0].kind == "assign" else None
+
+                def callname(e_):
+                    return e_.func.attr if isinstance(e_, ast.Call) and isinstance(e_.func, ast.Attribute) else \
+                        (e_.func.id if isinstance(e_, ast.Call) and isinstance(e_.func, ast.Name) else None)
+                ov = only_def(onm)
+                if callname(ov) == "concatenate" and len(ov.args) >= 1 and isinstance(ov.args[0], (ast.Tuple, ast.List)) and len(ov.args[0].elts) == 2 \
+                        and not modified_otherwise(onm) and not perm_swaps.get(onm):
+                    B, rest = ov.args[0].elts
+                    restv = only_def(rest.id) if isinstance(rest, ast.Name) else rest
+                    if isinstance(B, ast.Name) and callname(restv) == "setdiff1d" and len(restv.args) == 2 and callname(restv.args[0]) == "arange" \
+                            and isinstance(restv.args[1], ast.Name) and restv.args[1].id == B.id and not modified_otherwise(B.id):
+                        bv = only_def(B.id)
+                        dupfree = callname(bv) == "unique" or (callname(bv) in ("list", "array", "sorted", "fromiter") and bv.args and (
+                            callname(bv.args[0]) == "set" or isinstance(bv.args[0], (ast.Set, ast.SetComp))
+                            or (isinstance(bv.args[0], ast.BinOp) and isinstance(bv.args[0].op, ast.BitOr))))
+                        if dupfree:
+                            return ("gather-front", B.id)
+                        notes.append("`%s = %s` can contain a position twice (only a np.unique(...) / set result is duplicate-free): the index vector "
+                                     "`%s` is then no permutation, samples are duplicated and the length grows" % (B.id, src(bv) if bv is not None else "?", onm))
                 return None
             if isinstance(e, ast.Name):
                 bs = tmm.env.bindings.get(e.id, [])
@@ -336,7 +366,8 @@ def run(prog, ctx):
     ctx.check(ok, "C18.D3", R.key_of(mv, "aligned:swap"), mv.loc(),
               "samples and labels are reordered with the same permutation (one index vector built from arange by exchanging pairs, or the same "
               "exchange applied to both arrays)",
-              "move_boundaries_to_front does not reorder samples and labels with the same permutation of all positions")
+              "move_boundaries_to_front does not reorder samples and labels with the same permutation of all positions"
+              + ("".join(": " + x for x in notes[:1])))
     ctx.floor("C18.D3", n3, 5, "parallel-array instances")
 
     # ------------------------------------------------------------------ D5
